@@ -7,6 +7,7 @@ import gzip, importlib.util, os, struct, sys, zlib
 
 PROP = "C19"
 AREAS = ["fasta"]
+SUBCHECKS = ["C19G"]   # gzip layer joined with C17G: ragc create over input FILE BYTES (props/C19G.v)
 THEOREMS = ["parse_render", "presentation_invariant", "letters_read_back", "gz_invariant", "gz_member_boundaries",
             "sample_name_gz_invariant", "create_input_invariant", "parse_concat", "streams_equal", "pansn_vs_files",
             "pansn_naming", "plain_naming"]
